@@ -202,6 +202,7 @@ class KFLWorld(engine.World):
     self.pool = common.OptimizerPool(lambda: list(self.vars.values()))
     # Reference state machine.  Construction counts as a raw write.
     self.dirty = {"kernel": True, "scale": True}
+    self.finalize_noise = {"kernel": 0.0, "scale": 0.0}
     self.ref = common.KflRef(self.layer, fresh=True)
     self.snapshots = []
     self.prev_family = None
@@ -233,6 +234,8 @@ class KFLWorld(engine.World):
     self.ctx.log("constraint", name)
     self.dirty[name] = False
     self.last_con = name
+    if name in self.finalize_noise:
+      self.finalize_noise[name] = 0.0  # v.assign(constraint(v)) is exact
     if name == "kernel":
       # The projection just ran against the *current* scale.
       self.ref.on_kernel_projection()
@@ -388,6 +391,12 @@ class KFLWorld(engine.World):
 
   def _ev_finalize(self, ev, ctx):
     pre = self.layer.scale.numpy()
+    # finalize_constraints() writes `var += projected - var`: the result
+    # carries an absolute rounding error of about one ulp of the *old* value.
+    self.finalize_noise = {
+        "kernel": float(np.max(np.abs(self.layer.kernel.numpy()))) * 2.0**-22,
+        "scale": float(np.max(np.abs(pre))) * 2.0**-22,
+    }
     with ctx.sut("finalize_constraints"):
       self.layer.finalize_constraints()
     self.dirty = {"kernel": False, "scale": False}
@@ -417,6 +426,7 @@ class KFLWorld(engine.World):
       new = np.where(sel, 0.0, cur)
     v.assign(np.asarray(new, dtype=np.float32))
     self.dirty[ev["var"]] = True
+    self.finalize_noise[ev["var"]] = 0.0
     ctx.fire("raw_write")
     ctx.token("raw:%s:%s" % (ev["var"][0], how))
 
@@ -425,6 +435,7 @@ class KFLWorld(engine.World):
         "w": [np.array(w) for w in self.layer.get_weights()],
         "dirty": dict(self.dirty),
         "ref": self.ref.state(),
+        "finalize_noise": dict(self.finalize_noise),
     })
     ctx.token("snapshot")
 
@@ -438,6 +449,8 @@ class KFLWorld(engine.World):
       self.layer.set_weights(snap["w"])
     self.dirty = dict(snap["dirty"])
     self.ref.restore(snap["ref"])
+    self.finalize_noise = dict(snap.get("finalize_noise",
+                                        {"kernel": 0.0, "scale": 0.0}))
     ctx.fire("snapshot_restore")
     if idx != len(self.snapshots) - 1:
       ctx.reach("restore_from_older_snapshot")
@@ -481,6 +494,23 @@ class KFLWorld(engine.World):
     if self.units == 1:
       return a.reshape(a.shape[:-2] + (self.dims,))
     return a
+
+  def _finalize_tolerance(self):
+    """Output error caused by finalize_constraints()' additive write: absolute
+    weight noise times the sensitivity of the output to each weight."""
+    nk, ns = self.finalize_noise["kernel"], self.finalize_noise["scale"]
+    if nk == 0.0 and ns == 0.0:
+      return np.zeros(self.units)
+    k = self.layer.kernel.numpy().astype(np.float64)
+    s = np.abs(self.layer.scale.numpy().astype(np.float64))
+    k = k.reshape(self.L, self.units, self.dims, self.terms)
+    mx = np.max(np.abs(k), axis=0)  # (units, dims, terms)
+    sens = np.zeros((self.units, self.terms))
+    for d in range(self.dims):
+      others = np.prod(np.delete(mx, d, axis=1), axis=1)  # (units, terms)
+      sens += others
+    full = np.prod(mx, axis=1)
+    return 2.0 * (nk * np.mean(s * sens, axis=1) + ns * np.mean(full, axis=1))
 
   def _magnitude(self):
     k = self.layer.kernel.numpy().astype(np.float64)
@@ -529,7 +559,7 @@ class KFLWorld(engine.World):
     x, lines = self._probe(ps)
     tf = self.tf
     out = []
-    tol_u = 1e-5 * (1.0 + mag)  # per unit
+    tol_u = 1e-5 * (1.0 + mag) + self._finalize_tolerance()  # per unit
     has_bounds = sp["output_min"] is not None or sp["output_max"] is not None
     with ctx.sut("call"):
       y = self._call(x).numpy().astype(np.float64)
